@@ -13,7 +13,7 @@ theorem protoStep_inv {x : Option Nat} {w : World} (h : WInvX x w) (w' : World) 
     (hpp : w.protos.get? p = some ppr)
     (he : w'.ents = w.ents) (hr : w'.reqs = w.reqs) (hf : w'.fired = w.fired) (hc : w'.connReqs = w.connReqs)
     (hid : w'.nextId = w.nextId) (hnr : w'.nextReq = w.nextReq) (hnd : w'.nextDfd = w.nextDfd) (hncr : w'.nextCR = w.nextCR)
-    (hnp : w'.nextProto = w.nextProto)
+    (hnp : w'.nextProto = w.nextProto) (hprofile : w'.profile = w.profile)
     (hprot : ∀ q, w'.protos.get? q = if p = q then some npr else w.protos.get? q)
     (hretryT : ∀ t q rid, Pending w' t (.retry q rid) ↔ Pending w t (.retry q rid))
     (hconnackT : ∀ t cr, Pending w' t (.connack cr) → Pending w t (.connack cr))
@@ -146,6 +146,7 @@ theorem protoStep_inv {x : Option Nat} {w : World} (h : WInvX x w) (w' : World) 
     obtain ⟨q, qr, a, b, c⟩ := h.subArmed e he' hb ha
     refine ⟨q, ?_⟩
     grind
+  case profileOk => rw [hprofile]; exact h.profileOk
   case bufOk =>
     simp only [hprot]
     have := h.bufOk
@@ -238,7 +239,7 @@ theorem pingOff_inv {x : Option Nat} {w : World} (h : WInvX x w) (p : Nat) (ppr 
   obtain ⟨tm, htm, hs, hk⟩ := hpe
   refine ⟨tm, htm, hs, ?_⟩
   have hpe : Pending w t (.pingAlarm p) := ⟨tm, htm, hs, hk⟩
-  apply protoStep_inv h (pingOffW w p ppr t tm st now' log') p ppr { ppr with pingAlarm := none } hpp rfl rfl rfl rfl rfl rfl rfl rfl rfl
+  apply protoStep_inv h (pingOffW w p ppr t tm st now' log') p ppr { ppr with pingAlarm := none } hpp rfl rfl rfl rfl rfl rfl rfl rfl rfl rfl
   · intro q; simp only [pingOffW, Dict.get?_set]
   · intro t' q rid; exact kill_other htm st hst rfl hpe _ _ (by simp)
   · intro t' cr; exact (kill_other htm st hst rfl hpe _ _ (by simp)).mp
